@@ -212,6 +212,10 @@ impl IoHandle {
             Some(sender) => sender,
             None => return Err(SendError(command)),
         };
+        #[cfg(nomt_verif)]
+        let Some(command) = crate::verif::on_submit(command, &self.completion_sender) else {
+            return Ok(());
+        };
         sender
             .send(IoPacket {
                 command,
